@@ -372,13 +372,19 @@ fn do_resolve<Fd: AsFd, P: AsRef<Path>>(
                         });
                     }
 
-                    // Verify that we can follow the link.
-                    // MSRV(1.69): Remove &*.
-                    may_follow_link(&*current, &next).with_wrap(|| {
-                        format!(
-                            "component {part:?} is an unsafe symlink that is blocked by fs.protected_symlinks"
-                        )
-                    })?;
+                    // Verify that we can follow the link. Like the kernel, only
+                    // apply fs.protected_symlinks to the trailing symlink of the
+                    // walk (a trailing "/" still makes the link the trailing
+                    // component, a trailing "/." does not) -- symlinks in the
+                    // middle of a path are followed without this check.
+                    if remaining_components.iter().all(|part| part.is_empty()) {
+                        // MSRV(1.69): Remove &*.
+                        may_follow_link(&*current, &next).with_wrap(|| {
+                            format!(
+                                "component {part:?} is an unsafe symlink that is blocked by fs.protected_symlinks"
+                            )
+                        })?;
+                    }
 
                     // We need a limit on the number of symlinks we traverse to
                     // avoid hitting filesystem loops and DoSing.
